@@ -39,7 +39,7 @@ def generate(rng, tier, seed):
     reps = 1 if tier == "quick" else 4
     pats = [lambda n: digits(rng, n), lambda n: "0" * n, lambda n: "9" * n, lambda n: "0" + digits(rng, n - 1), lambda n: digits(rng, n - 1) + "0"]
     for plen in range(4, 13):
-        for panlen in list(range(13, 25)) + [30, 40]:
+        for panlen in list(range(13, 25)) + [30, 40] + ([641, 4300, 4301, 5000] if plen in (4, 7, 12) else []):
             for pat in pats:
                 for _ in range(reps):
                     pin, pan = pat(plen), pats[rng.randrange(len(pats))](panlen)
